@@ -28,6 +28,19 @@ for (pid, h), runs in sorted(groups.items(), key=lambda kv: sorted(kv[1])[0][1])
         d = confirmed[-1][2]
         stats["kept"] += 1
         earlier_miss = any(not r[2].get("detected") for r in confirmed[:-1])
+        # the last word is the re-check of every kept patch with the final checks (tools/recheck_seeded.py)
+        fins = [r[2]["final"] for r in confirmed if r[2].get("final")]
+        if fins:
+            fin = fins[-1]
+            if fin.get("applies") is False:
+                res = "caught when it was seeded (%s); the patch no longer applies to the current source" % (
+                    "failing input" if d.get("with_failing_input") else "broken tie") if d.get("detected") else "missed when seeded; no longer applies"
+                stats["input" if d.get("with_failing_input") else ("broken" if d.get("detected") else "missed")] += 1
+                rows.append("| %s | %s | %s | %s | %s |" % (first_sid, summ[:160], needs[:140], res, ""))
+                continue
+            earlier_miss = earlier_miss or (not d.get("detected") and fin.get("detected")) or any(not r[2].get("detected") for r in confirmed)
+            d = dict(d, detected=fin.get("detected"), with_failing_input=fin.get("with_failing_input"), check_output=fin.get("output"))
+            earlier_miss = earlier_miss and d["detected"]
         if d.get("detected"):
             if d.get("with_failing_input"):
                 res = "caught, failing input replayed"; stats["input"] += 1
